@@ -161,6 +161,8 @@ def _generated(rng, tier, focus, allow_degenerate=True):
     start_fixed = n_start >= n_end
     p_h = rng.choice([0.0, 0.0, 0.3, 0.6])
     far = rng.choice([0.0, 1.0, 25.0])
+    if focus == "C06" and rng.random() < 0.08:
+        far = rng.choice([3000.0, 7000.0])       # legal in a .gro file (up to 9999.999); separations stay molecular
     n_res = 1
     if min(n_start, n_end) >= 2 and rng.random() < 0.15:
         n_res = rng.randint(2, min(3, n_start, n_end))       # multi-residue pair (same residue names at each position)
@@ -216,6 +218,15 @@ def _generated(rng, tier, focus, allow_degenerate=True):
         # the SAME Alignment object is used again: after the first alignment the mobile molecule is re-assigned with another
         # conformation of the same species (other bond lengths) and aligned once more
         tr["second"] = {"amp": rng.choice([0.02, 0.05, 0.1]), "seed": rng.randrange(2 ** 31), "also_fixed": rng.random() < 0.3}
+    if focus == "C09" and rng.random() < 0.12:
+        # the same molecules in other length units (coordinates ~1e-6 or ~1e3 of the usual): every comparison of the search
+        # is scale-free, absolute thresholds are not
+        f = rng.choice([1e-6, 1e-4, 1e3])
+        for spec in (start, end):
+            spec["positions"] = (np.array(spec["positions"]) * f).tolist()
+        if tr.get("reassign"):
+            tr["reassign"]["shift"] = [x * f for x in tr["reassign"]["shift"]]     # (offsets are lengths too)
+        tr["unit_scale"] = f
     if focus == "C09" and rng.random() < 0.3:
         # drive the optimiser entry point directly: any step budget 1..2000
         tr["mode"] = "direct"
@@ -604,8 +615,8 @@ def make_monitors(ctx, watch, real):
     RealChi2, real_accept, real_move, real_displ, real_rot = real
 
     class MonChi2:
-        def __init__(self, mol1, mol2, restrictions=None):
-            self._real = RealChi2(mol1, mol2, restrictions)
+        def __init__(self, mol1, mol2, restrictions=None, *extra, **kw):
+            self._real = RealChi2(mol1, mol2, restrictions, *extra, **kw)
             self._fixed = np.array(mol1, dtype=float, copy=True)
             self._restr = [] if restrictions is None or len(restrictions) == 0 else [tuple(int(x) for x in r) for r in restrictions]
             self._construct_mol2 = np.array(mol2, dtype=float, copy=True)
@@ -664,11 +675,11 @@ def make_monitors(ctx, watch, real):
         watch.last_displ = np.array(out, dtype=float, copy=True)
         return out
 
-    def mon_move(atoms_pos, bonds_info, atom_index=None, displ=None, sigma_scale=0.5):
+    def mon_move(atoms_pos, bonds_info, atom_index=None, displ=None, sigma_scale=0.5, *extra, **kw):
         before = np.array(atoms_pos, dtype=float, copy=True)
         watch.last_randint = None
         watch.last_displ = None
-        out = real_move(atoms_pos, bonds_info, atom_index=atom_index, displ=displ, sigma_scale=sigma_scale)
+        out = real_move(atoms_pos, bonds_info, atom_index, displ, sigma_scale, *extra, **kw)
         idx = atom_index if atom_index is not None else watch.last_randint
         d = displ if displ is not None else watch.last_displ
         if watch.degenerate and not np.all(np.isfinite(np.asarray(out, dtype=float))):
@@ -679,9 +690,9 @@ def make_monitors(ctx, watch, real):
             watch.cur["move"] = (before, np.array(out, dtype=float, copy=True))
         return out
 
-    def mon_rot(axis, theta):
+    def mon_rot(axis, theta, *extra, **kw):
         ax_before = np.array(axis, dtype=float, copy=True)
-        M = real_rot(axis, theta)
+        M = real_rot(axis, theta, *extra, **kw)
         check_rotation(ctx, ax_before, float(theta), M)
         if not np.array_equal(ax_before, np.asarray(axis, dtype=float)):
             ctx.violate("C17", "rotation-modifies-axis", "rotation_matrix modified its axis argument")
@@ -893,14 +904,14 @@ def execute(trace, ctx):
         info = {}
 
         def mon_minimize(mol1_positions, mol2_positions, mol2_com, sigma_scale, n_steps, restriction, mol2_bonds_info,
-                         displacement_module, sim_type):
+                         displacement_module, sim_type, *extra, **kw):
             watch.n_steps = int(n_steps)
             watch.sim_type = tuple(sim_type)
             watch.phase = "init"
             info["args"] = (np.array(mol1_positions, copy=True), np.array(mol2_positions, copy=True), int(n_steps),
                             list(restriction), tuple(sim_type), float(displacement_module), float(sigma_scale))
             out = real_min(mol1_positions, mol2_positions, mol2_com, sigma_scale, n_steps, restriction, mol2_bonds_info,
-                           displacement_module, sim_type)
+                           displacement_module, sim_type, *extra, **kw)
             watch.phase = "done"
             info["returned"] = np.array(out, dtype=float, copy=True)
             return out
@@ -932,6 +943,8 @@ def execute(trace, ctx):
         ctx.probe("degenerate_mobile_geometry")
     if trace.get("two_piece_mobile"):
         ctx.probe("two_piece_mobile_direct")
+    if trace.get("unit_scale"):
+        ctx.probe("other_length_units")
     if outcome == "extra-draw":
         return
     if outcome.startswith("raised"):
@@ -1034,7 +1047,8 @@ def _drive(trace, ali, restr, deform, ctx, B, info, watch):
             r = [tuple(x) for x in rl] if ns >= ne else [tuple(x[::-1]) for x in rl]
             sim = deform if deform is not None else ((0, 1, 2) if len(mobile) >= 2 else (0,))
             A.minimize_molecules(fixed.atoms_positions, mobile.atoms_positions, mobile.geometric_center,
-                                 trace["sigma_scale"], trace["n_steps"], r, mobile.bonds_distance, 0.2, sim)
+                                 trace["sigma_scale"], trace["n_steps"], r, mobile.bonds_distance,
+                                 0.2 * float(trace.get("unit_scale") or 1.0), sim)
         return "ok"
     except ExtraDraw:
         return "extra-draw"
